@@ -25,13 +25,18 @@ TECHNIQUE = (
     "preceded them, scanned through a harness OEM subclass of gallia's ECU whose set_session_pre() hook sends that request (the "
     "reference counts such a transition as available iff --with-hooks is on, as refused = identified-only otherwise); (2) ECUs that "
     "carry out the ECUReset of --reset but never answer it (always / outside the default session / with probability 0.5), so that "
-    "the scanner's timeout -> reconnect path is taken (max_retries 0, 1, 3)"
+    "the scanner's timeout -> reconnect path is taken (max_retries 0, 1, 3); (3) ECUs that send the positive ECUReset response at "
+    "once and carry the reset out 2..450 ms later (timer on the virtual clock), staying in their session and answering every request "
+    "(TesterPresent, session changes) until then, optionally silent for a boot time afterwards; replies of these ECUs arrive with a "
+    "latency of 0.5..40 ms so that virtual time passes while the scanner talks; the moment the reset is carried out is an entry of "
+    "the ECU-side log"
 )
 LEVEL_TEXT = (
     "Exploration: seeded random session graphs (3..14 session ids out of 1..0x7F plus planted chains of length depth+2, cycles, "
     "unreachable components, sessions behind non-default sessions, transitions refused with another NRC), ISO-conformant (every "
     "session returns to the default session) and non-conformant, x depth 1..5 x skip lists in range grammar x thorough x reset x "
-    "with-hooks (default ECU class, or the harness OEM class with hook-armed transitions) x answered/unanswered resets x direct "
+    "with-hooks (default ECU class, or the harness OEM class with hook-armed transitions) x answered/unanswered resets x resets carried "
+    "out immediately / 2..450 ms after the positive response (with and without boot silence, reply latency 0.5..40 ms) x direct "
     "main()/full run().  Held = on every generated scan the result equals the reference reachability set, every "
     "reported stack is a real path, no skipped session was requested and the scan ended within its request budget.  DB-backed "
     "histories: one scan, or a scan followed by a second scan of the same target into the same database with a smaller depth, a skip "
@@ -46,7 +51,7 @@ LEVEL_NOTE = (
 )
 RULE = (
     "cases = (graph edges, refused transitions, hook-armed transitions, depth, skip list, thorough, reset level, ECU offers reset, "
-    "unanswered-reset rule and max_retries, with_hooks, sleep, run mode, DB-backed or not; each scan of a two-scan history is one case); "
+    "unanswered-reset rule and max_retries, delayed-reset rule (delay, reply latency, boot silence), with_hooks, sleep, run mode, DB-backed or not; each scan of a two-scan history is one case); "
     "graphs are seeded random digraphs with planted features; non-trivial = some session lies at distance >= 2 from the default "
     "session or a planted feature (cycle off the default session, over-long chain, unreachable component, skip that cuts a path, "
     "refused transition) is present; distinct = distinct case tuples; distinct_traces = distinct ECU-side request/reply logs"
@@ -65,6 +70,10 @@ ASSUMPTIONS = [
     "conditionsNotCorrect once more with hooks",
     "an ECUReset that is carried out but not answered leaves the ECU in the default session; the expected result of the scan is the same "
     "as with answered resets (the reset option must not change what is reachable)",
+    "an ECU may send the positive ECUReset response first and reset a little later; until then it is in the session it was in and "
+    "answers every request.  The expected result of the scan is the same as with immediate resets.  Generated delays stay below 0.45 s, "
+    "i.e. below the 0.5 s wait_for_ecu() documents between its pings after a reset, and delay + boot silence stay below 1.3 s, well "
+    "inside the request timeout (2 s) the scan waits for the ECU; slower ECUs are outside what --reset can be expected to handle",
     "sessions.py documents that a session whose change was refused with an NRC other than 0x12/0x7E and that was never entered is logged as "
     "'identified but could not be activated' AND stored in session_transition with the stack it was refused from (the table has no column "
     "telling such rows from reachable ones); the oracle accepts exactly those rows/list entries, derived from the ECU-side log, and nothing "
@@ -76,6 +85,9 @@ EXHAUSTIVE = {"quick": False, "thorough": False}
 EXHAUSTIVE_NOTE = ""
 
 GUARD_NRCS = [0x22, 0x33, 0x31, 0x24]
+# delayed resets are carried out within this many seconds after the positive response: below the 0.5 s that wait_for_ecu()
+# documents as the distance between its pings after a reset (an ECU that takes longer is outside what --reset promises)
+DELAYED_RESET_MAX = 0.45
 MAX_REQ = {"quick": 20_000, "thorough": 60_000}
 
 
@@ -105,7 +117,13 @@ def required_reach(tier: str) -> dict[str, int]:
          "hooks.armed-transition.refused-without-hooks": 15, "hooks.session-reachable-only-through-armed-transition": 15,
          # ECUs that carry out the ECUReset of --reset without answering it (timeout -> reconnect path of the scanner)
          "reset.silent.scans": 20, "reset.silent.every-attempt-unanswered": 15, "reset.silent.transport-reconnected": 15,
-         "reset.silent.unanswered-after-refused-probe-on-stack": 10, "reset.silent.answered-on-retry": 3}
+         "reset.silent.unanswered-after-refused-probe-on-stack": 10, "reset.silent.answered-on-retry": 3,
+         # ECUs that answer the ECUReset of --reset at once and carry it out a little later (still answering in between)
+         "reset.delayed.scans": 20, "reset.delayed.carried-out-after-positive-response": 20, "#reset.delayed.delay/": 3,
+         "#reset.delayed.latency/": 3, "reset.delayed.ecu-stayed-in-non-default-session-until-reset": 15,
+         "reset.delayed.non-default-stack-re-entered-after-reset": 10,
+         "reset.delayed.non-default-stack-re-entered-after-reset-out-of-non-default-session": 10,
+         "reset.delayed.scans-with-boot-silence": 5, "reset.delayed.ping-unanswered-while-booting": 3}
     return r
 
 
@@ -301,6 +319,7 @@ def gen_case(rng: Any, tier: str) -> dict[str, Any]:
         case["silent_reset"] = {"where": rng.choice(["always", "always", "non-default"]), "p": rng.choice([1.0, 1.0, 0.5]),
                                 "seed": rng.randrange(1 << 30)}
         case["max_retries"] = rng.choice([0, 0, 1, 3])
+    case["delayed_reset"] = gen_delayed_reset(case)
     # keep the run affordable: a thorough scan searches every walk, a reset costs ~depth+3 requests per probe
     adj = real_adj(case)
     cap = MAX_REQ[tier]
@@ -316,9 +335,28 @@ def gen_case(rng: Any, tier: str) -> dict[str, Any]:
         elif case["reset"]:
             case["reset"] = None
             case["silent_reset"] = None
+            case["delayed_reset"] = None
         else:
             break
     return case
+
+
+def gen_delayed_reset(case: dict[str, Any]) -> dict[str, Any] | None:
+    """An ECU that answers ECUReset positively at once and carries the reset out a little later: until then it stays in its
+    session and keeps answering (TesterPresent, session changes); optionally it is silent for a boot time after the reset.
+    Every reply takes `latency` seconds to arrive, so that time passes on the virtual clock while the scanner talks.
+    Drawn from a generator of its own seeded by the case (the main stream, hence every other generated case, is unchanged)."""
+    import random
+
+    if not (case["reset"] and case["ecu_reset"]) or case["silent_reset"]:
+        return None
+    r = random.Random(repr((sorted(case["edges"].items()), case["depth"], case["skip"], case["thorough"])))
+    if r.random() >= 0.7:
+        return None
+    delay = round(r.choice([r.uniform(0.002, 0.05), r.uniform(0.05, 0.2), r.uniform(0.2, DELAYED_RESET_MAX)]), 4)
+    latency = r.choice([0.0005, 0.002, 0.01, 0.04])
+    boot = round(r.uniform(0.05, 0.8), 3) if r.random() < 0.35 else 0.0
+    return {"delay": delay, "latency": latency, "boot": boot}
 
 
 # ---- one scan ------------------------------------------------------------------------------------------------------
@@ -364,7 +402,10 @@ async def scan(case: dict[str, Any], budget: int, db: Any = None) -> dict[str, A
     from vf import ecu_models as em
 
     srv = model(case)
-    tr = em.InProcessTransport(srv, budget=budget)
+    dr = case.get("delayed_reset")
+    tr = latency_transport_class()(srv, budget=budget, latency=dr["latency"]) if dr else em.InProcessTransport(srv, budget=budget)
+    if dr:
+        srv.log_sink = tr.log  # the moment a delayed reset is carried out becomes an entry of the ECU-side log
     cap = em.fresh_capture()
     opts: dict[str, Any] = {"depth": case["depth"], "skip": list(case["skip_expr"]), "thorough": case["thorough"],
                             "reset": case["reset"], "with_hooks": case["with_hooks"], "sleep": case["sleep"],
@@ -383,8 +424,83 @@ def model(case: dict[str, Any], fresh: bool = False) -> Any:
     """the ECU model of a case; fresh=True: the same ECU for replaying a path (resets are not part of a path)"""
     from vf import ecu_models as em
 
-    return em.GraphECU({int(k): v for k, v in case["edges"].items()}, {(a, b): c for a, b, c in case["guarded"]},
-                       with_reset=case["ecu_reset"], silent_reset=None if fresh else case["silent_reset"], hooked=case["hooked"])
+    dr = None if fresh else case.get("delayed_reset")
+    srv = (delayed_reset_ecu_class() if dr else em.GraphECU)(
+        {int(k): v for k, v in case["edges"].items()}, {(a, b): c for a, b, c in case["guarded"]},
+        with_reset=case["ecu_reset"], silent_reset=None if fresh else case["silent_reset"], hooked=case["hooked"])
+    if dr:
+        srv.reset_delay, srv.boot_time = float(dr["delay"]), float(dr.get("boot", 0.0))
+    return srv
+
+
+_delayed_cls: Any = None
+_latency_cls: Any = None
+
+
+def delayed_reset_ecu_class() -> Any:
+    """GraphECU that sends the positive ECUReset response first and carries the reset out `reset_delay` seconds later (timer of
+    the event loop, i.e. virtual time).  In between it is the ECU it was: same session, every request answered.  After the
+    reset it answers nothing for `boot_time` seconds.  The reset itself is logged as (session before, b"", None, 1)."""
+    global _delayed_cls
+    if _delayed_cls is None:
+        import asyncio
+
+        from gallia.services.uds.core import service
+        from vf import ecu_models as em
+
+        class DelayedResetECU(em.GraphECU):  # type: ignore[misc,name-defined]
+            reset_delay = 0.1
+            boot_time = 0.0
+            down_until = -1.0
+            log_sink: Any = None
+            n_delayed_resets = 0
+
+            def _carry_out_reset(self) -> None:
+                before = self.state.session
+                self.state.reset()
+                self.armed = None
+                self.n_delayed_resets += 1
+                self.down_until = asyncio.get_running_loop().time() + self.boot_time if self.boot_time else -1.0
+                if self.log_sink is not None:
+                    self.log_sink.append((before, b"", None, self.state.session))
+
+            async def update_state(self, request: Any, response: Any) -> None:
+                if isinstance(response, service.ECUResetResponse):
+                    asyncio.get_running_loop().call_later(self.reset_delay, self._carry_out_reset)
+                    return
+                await super().update_state(request, response)
+
+            async def respond(self, request: Any) -> Any:
+                if asyncio.get_running_loop().time() < self.down_until:
+                    return None  # booting
+                return await super().respond(request)
+
+        _delayed_cls = DelayedResetECU
+    return _delayed_cls
+
+
+def latency_transport_class() -> Any:
+    """InProcessTransport whose replies arrive `latency` seconds after the request was processed"""
+    global _latency_cls
+    if _latency_cls is None:
+        import asyncio
+
+        from vf import ecu_models as em
+
+        class LatencyTransport(em.InProcessTransport, scheme="inprocess"):  # type: ignore[misc,name-defined,call-arg]
+            def __init__(self, server: Any, budget: int | None = None, latency: float = 0.0) -> None:
+                super().__init__(server, budget=budget)
+                self.latency = latency
+
+            async def read(self, timeout: float | None = None, tags: list[str] | None = None) -> bytes:
+                if self.queue:
+                    reply = self.queue.popleft()
+                    await asyncio.sleep(self.latency)
+                    return reply
+                return await super().read(timeout, tags)
+
+        _latency_cls = LatencyTransport
+    return _latency_cls
 
 
 async def replay_path(case: dict[str, Any], path: list[int]) -> tuple[bool, int]:
@@ -407,8 +523,8 @@ async def replay_path(case: dict[str, Any], path: list[int]) -> tuple[bool, int]
 
 
 CASE_KEYS = ("edges", "guarded", "depth", "skip", "skip_expr", "thorough", "reset", "ecu_reset", "with_hooks", "sleep", "full",
-             "hooked", "silent_reset", "max_retries")
-CASE_DEFAULTS: dict[str, Any] = {"hooked": [], "silent_reset": None, "max_retries": 3}  # witnesses written before these existed
+             "hooked", "silent_reset", "max_retries", "delayed_reset")
+CASE_DEFAULTS: dict[str, Any] = {"hooked": [], "silent_reset": None, "max_retries": 3, "delayed_reset": None}  # witnesses written before these existed
 
 
 def walk_ok(adj: dict[int, set[int]], path: list[Any]) -> bool:
@@ -450,8 +566,9 @@ def prepare(ctx: Any, case: dict[str, Any], db: bool = False) -> dict[str, Any]:
     abort_allowed = (not conformant) and ((not eff_reset) or 1 not in adj.get(1, ()))
     stacks = count_stacks(adj, skip, depth, 10**7) if case["thorough"] else len(all_sessions) + 1
     silent = case["silent_reset"] if eff_reset else None
+    delayed = case.get("delayed_reset") if eff_reset and not silent else None
     # per probe: reset (+ its unanswered repetitions, each with a tester present of the background worker), ping, the stack, the probe
-    per_probe = depth + 8 + (2 * (case["max_retries"] + 1) + 2 if silent else 0)
+    per_probe = depth + 8 + (2 * (case["max_retries"] + 1) + 2 if silent else 0) + (4 if delayed else 0)
     budget = int(stacks * 127 * per_probe * (2 if case["with_hooks"] else 1) * 2 + 2000)
 
     feat_far = any(d >= 2 for d in unbounded.values())
@@ -463,7 +580,8 @@ def prepare(ctx: Any, case: dict[str, Any], db: bool = False) -> dict[str, Any]:
     nontrivial = feat_far or feat_cycle or feat_long or feat_unreach or cuts or bool(case["guarded"]) or bool(case["hooked"])
     ident = (sorted(case["edges"].items()), case["guarded"], depth, case["skip"], case["thorough"], case["reset"], case["ecu_reset"],
              case["with_hooks"], case["sleep"], case["full"], case["hooked"],
-             sorted(silent.items()) if silent else None, case["max_retries"] if silent else None) + (("db",) if db else ())
+             sorted(silent.items()) if silent else None, case["max_retries"] if silent else None) \
+        + ((("delayed-reset",) + tuple(sorted(delayed.items())),) if delayed else ()) + (("db",) if db else ())
     ctx.case(ident, nontrivial=nontrivial)
     ctx.reach("graph.conformant" if conformant else "graph.nonconformant")
     for flag, name in ((case["thorough"], "opt.thorough"), (case["reset"], "opt.reset"), (case["full"], "opt.full-run"),
@@ -480,11 +598,17 @@ def prepare(ctx: Any, case: dict[str, Any], db: bool = False) -> dict[str, Any]:
     if silent:
         ctx.reach("reset.silent.scans")
         ctx.reach(f"reset.silent.scans/{silent['where']}/p={silent['p']}/max-retries={case['max_retries']}")
+    if delayed:
+        ctx.reach("reset.delayed.scans")
+        ctx.reach("reset.delayed.delay/" + ("<=50ms" if delayed["delay"] <= 0.05 else "<=200ms" if delayed["delay"] <= 0.2 else f"<={int(DELAYED_RESET_MAX * 1000)}ms"))
+        ctx.reach(f"reset.delayed.latency/{delayed['latency'] * 1000:g}ms")
+        if delayed.get("boot"):
+            ctx.reach("reset.delayed.scans-with-boot-silence")
 
     w: dict[str, Any] = {k: case[k] for k in CASE_KEYS}
     w["expected"] = sorted(want)
     return {"depth": depth, "skip": skip, "adj": adj, "want": want, "unbounded": unbounded, "all_sessions": all_sessions,
-            "eff_reset": eff_reset, "silent": silent, "stuck": stuck, "conformant": conformant, "abort_allowed": abort_allowed, "budget": budget,
+            "eff_reset": eff_reset, "silent": silent, "delayed": delayed, "stuck": stuck, "conformant": conformant, "abort_allowed": abort_allowed, "budget": budget,
             "feat_cycle": feat_cycle, "feat_long": feat_long, "feat_unreach": feat_unreach,
             "mode": "thorough" if case["thorough"] else "default", "w": w}
 
@@ -547,6 +671,42 @@ def reach_silent_resets(ctx: Any, log: list[Any], reconnects: int) -> None:
         ctx.reach(name)
 
 
+def delayed_reset_spans(log: list[Any]) -> list[tuple[int, int]]:
+    """(index of a positively answered ECUReset request, index of the entry at which that reset was carried out)"""
+    spans = []
+    open_: list[int] = []
+    for i, (_, q, r, _) in enumerate(log):
+        if len(q) >= 2 and q[0] == 0x11 and r is not None and r[0] == 0x51:
+            open_.append(i)
+        elif q == b"" and open_:
+            spans.append((open_.pop(0), i))
+    return spans
+
+
+def reach_delayed_resets(ctx: Any, log: list[Any]) -> None:
+    """ECU-side evidence for 'positive response first, reset a little later' (no verdicts here)"""
+    seen: set[str] = set()
+    for i, j in delayed_reset_spans(log):
+        seen.add("reset.delayed.carried-out-after-positive-response")
+        if log[j][0] != 1:
+            seen.add("reset.delayed.ecu-stayed-in-non-default-session-until-reset")
+        # what the scanner did afterwards, up to its next reset: default session, a non-default session, one more session change
+        dsc = []
+        for e in log[j + 1:]:
+            if len(e[1]) >= 2 and e[1][0] == 0x11:
+                break
+            if len(e[1]) == 2 and e[1][0] == 0x10:
+                dsc.append(e)
+            elif len(e[1]) >= 1 and e[1][0] == 0x3E and e[2] is None:
+                seen.add("reset.delayed.ping-unanswered-while-booting")
+        if len(dsc) >= 3 and dsc[0][1] == b"\x10\x01" and dsc[0][3] == 1 and dsc[1][3] != 1 and dsc[1][2] is not None and dsc[1][2][0] == 0x50:
+            seen.add("reset.delayed.non-default-stack-re-entered-after-reset")
+            if log[j][0] != 1:
+                seen.add("reset.delayed.non-default-stack-re-entered-after-reset-out-of-non-default-session")
+    for name in sorted(seen):  # once per scan
+        ctx.reach(name)
+
+
 def mechanism(case: dict[str, Any], o: dict[str, Any], log: list[Any]) -> str:
     """ECU-side trace of the two places where the scanner has to re-enter its stack although no probe 'succeeded' in its own
     books; used only to NAME the mechanism in the key of a verdict reached otherwise (wrong set / stack / abort).
@@ -561,6 +721,12 @@ def mechanism(case: dict[str, Any], o: dict[str, Any], log: list[Any]) -> str:
             if run and all(e[2] is None for e in run) and run[0][0] != 1 and log[j][1] != b"\x10\x01":
                 out += "/unanswered-reset-then-stack-not-re-entered"
                 break
+    if o.get("delayed"):
+        # the ECU had answered the reset but not yet carried it out when the next session change request arrived: the scanner
+        # took the answer (or an answered TesterPresent) for the reset itself
+        spans = delayed_reset_spans(log)
+        if any(len(e[1]) == 2 and e[1][0] == 0x10 for i, j in spans for e in log[i + 1 : j]):
+            out += "/session-change-requested-before-delayed-reset-carried-out"
     if hooked and case["with_hooks"]:
         for i in dsc:
             before, q, r, after = log[i]
@@ -598,6 +764,8 @@ def judge(ctx: Any, case: dict[str, Any], o: dict[str, Any], out: dict[str, Any]
     reach_hooks(ctx, case, log)
     if o["silent"]:
         reach_silent_resets(ctx, log, out.get("reconnects", 0))
+    if o.get("delayed"):
+        reach_delayed_resets(ctx, log)
 
     mx = mechanism(case, o, log)
 
@@ -799,6 +967,7 @@ def fit_db(case: dict[str, Any], tier: str) -> dict[str, Any]:
     """DB-backed scans run in real time: no reset (wait_for_ecu sleeps 0.5 s per probe), no sleep option, bounded size"""
     case["reset"] = None
     case["silent_reset"] = None
+    case["delayed_reset"] = None
     case["sleep"] = 0
     while db_cost(case) > DB_MAX_REQ[tier]:
         if case["thorough"]:
@@ -998,7 +1167,7 @@ def run(ctx: Any, params: dict[str, Any]) -> None:
             case = pinned_case(i + 1, params["part"])
         check_case(ctx, case)
         if i % 40 == 0:
-            ctx.sample({k: case[k] for k in ("edges", "guarded", "hooked", "depth", "skip_expr", "thorough", "reset", "silent_reset", "max_retries", "with_hooks", "full")})
+            ctx.sample({k: case[k] for k in ("edges", "guarded", "hooked", "depth", "skip_expr", "thorough", "reset", "silent_reset", "delayed_reset", "max_retries", "with_hooks", "full")})
 
 
 def pinned_case(depth: int, part: int) -> dict[str, Any]:
@@ -1014,9 +1183,11 @@ def pinned_case(depth: int, part: int) -> dict[str, Any]:
         edges[s].add(1)
     case = {"edges": {str(k): sorted(v) for k, v in sorted(edges.items())}, "guarded": [], "depth": depth, "skip": [], "skip_expr": [],
             "thorough": part % 4 == 1 and depth <= 4, "reset": 1 if part % 4 == 2 else None, "ecu_reset": True, "with_hooks": False, "sleep": 0,
-            "full": part % 4 == 3, "feats": ["pinned"], "hooked": [], "silent_reset": None, "max_retries": 3}
+            "full": part % 4 == 3, "feats": ["pinned"], "hooked": [], "silent_reset": None, "max_retries": 3, "delayed_reset": None}
     v = part % 16
-    if v in (6, 10, 14):  # the ECU carries out every reset (6, 10) / every reset outside the default session (14) without answering
+    if v == 2:  # the ECU answers the reset at once and carries it out later (depth-dependent delay; replies take 20 ms)
+        case["delayed_reset"] = {"delay": round(0.09 * depth, 3), "latency": 0.02, "boot": 0.3 if depth == 4 else 0.0}
+    elif v in (6, 10, 14):  # the ECU carries out every reset (6, 10) / every reset outside the default session (14) without answering
         case["silent_reset"] = {"where": "non-default" if v == 14 else "always", "p": 1.0, "seed": 0}
         case["max_retries"] = 3 if v == 10 else 0
     elif v in (4, 12):  # transitions armed by the OEM hook, scanned with hooks
